@@ -2,6 +2,8 @@ package sym
 
 import (
 	"fmt"
+	"os"
+	"runtime/debug"
 	"go/types"
 	"sort"
 	"strings"
@@ -167,6 +169,9 @@ func (s *State) Clone() *State {
 func (s *State) Assume(t *smt.Term) {
 	if t.IsTrue() {
 		return
+	}
+	if t.IsFalse() && os.Getenv("GVC_DEBUG_FALSE") != "" {
+		fmt.Fprintf(os.Stderr, "ASSUME-FALSE at:\n%s\n", debug.Stack())
 	}
 	s.PC = append(s.PC, t)
 	s.IsBranch = append(s.IsBranch, false)
